@@ -114,6 +114,34 @@ def enumerate_cases(tier):
                 yield rec
 
 
+    # three page_by levels over a small value pool: every sorted sequence of 5 rows over the 8 keys {0,1}^3, so that an outer
+    # level changes while one or both inner levels keep the label they had on the row above, mid-page and at page tops
+    keys3 = list(itertools.product((0, 1), repeat=3))
+    for si, seq in enumerate(itertools.combinations_with_replacement(range(8), 5)):
+        for ni, nrow in enumerate((20, 6, 9)):
+            if tier == "quick" and (si + ni) % 3:
+                continue
+            groups = [[f"@G{lvl}:v{keys3[q][lvl]}" for q in seq] for lvl in range(3)]
+            rec = pgen.make_table([1] * 5, groups, ndata=1, page_by_levels=3, new_page=False, header="explicit", nrow=nrow)
+            rec["strategy"] = "page_by"
+            yield rec
+    # subline_by / page_by over two columns whose different key tuples read alike once joined ('1'+'11' / '11'+'1', 'A'+'BC' /
+    # 'AB'+'C', separators inside the values): untagged keys, headings recognised by their display text
+    for pairs in ([("1", "11"), ("11", "1"), ("11", "2")], [("A", "BC"), ("AB", "C"), ("B", "C")], [("a", "b|c"), ("a|b", "c")],
+                  [("x", "y z"), ("x y", "z"), ("x y", "zz")], [("1", "0"), ("1", "01"), ("10", "1")]):
+        for per in (1, 2, 3):
+            n = per * len(pairs)
+            c0 = [p[0] for p in pairs for _ in range(per)]
+            c1 = [p[1] for p in pairs for _ in range(per)]
+            rec = pgen.make_table([1] * n, None, ndata=2, subline=[c0, c1], header="explicit", nrow=12)
+            rec["strategy"], rec["numeric_keys"] = "subline", True
+            yield rec
+            if not set(c0) & set(c1):        # heading rows are told apart by their text: the two levels must not share a value
+                rec = pgen.make_table([1] * n, [c0, c1], ndata=2, page_by_levels=2, new_page=False, header="explicit", nrow=30)
+                rec["strategy"], rec["numeric_keys"] = "page_by", True
+                yield rec
+
+
 def check(case) -> Result:
     res = Result()
     out = run_recipe(case)
@@ -259,7 +287,9 @@ def check(case) -> Result:
         if sb_keys and sb_keys[0] and rows_here:
             res.checks += 1
             want = {", ".join(str(v) for v in sb_keys[i]) for i in rows_here}
-            if len(subheads) != 1:
+            if len({tuple(sb_keys[i]) for i in rows_here}) != 1:
+                res.fail("subline_heading", "several_groups_on_one_page", f"page {pn + 1}: rows of {sorted({tuple(sb_keys[i]) for i in rows_here})[:3]}")
+            elif len(subheads) != 1:
                 res.fail("subline_heading", f"count{len(subheads)}", f"page {pn + 1}: {len(subheads)} heading paragraphs")
             elif len(want) != 1 or subheads[0].texts[0] != next(iter(want)):
                 res.fail("subline_heading", "wrong_group", f"page {pn + 1}: heading {subheads[0].texts[0]!r}, rows belong to {sorted(want)}")
